@@ -71,6 +71,10 @@ macro_rules! tree_test {
                 let k = match rng.gen_range(0..4) { 0 => total, 1 => usize::MAX, 2 => total.saturating_sub(1), _ => rng.gen_range(0..=total) };
                 let exp_sel = s.iter().enumerate().filter(|(_, &x)| x == c).nth(k).map(|(p, _)| p);
                 chk!($label, inp.clone(), format!("select({}, {})", c, k), t.select(c, k), exp_sel);
+                // C10: the unchecked twins on arguments that satisfy their documented precondition
+                if let Some(p) = exp_sel { chk!($label, inp.clone(), format!("select_unchecked({}, {})", c, k), unsafe { t.select_unchecked(c, k) }, p); }
+                if let Some(r) = exp_rank { chk!($label, inp.clone(), format!("rank_unchecked({}, {})", c, i), unsafe { t.rank_unchecked(c, i) }, r); }
+                if i < n { chk!($label, inp.clone(), format!("get_unchecked({})", i), unsafe { t.get_unchecked(i) }, s[i]); }
                 if $prefetch { tree_prefetch(&t, c, i, &inp, $label, exp_rank); }
             }
             if n <= 3000 {
@@ -152,6 +156,7 @@ fn qvector_test(rng: &mut StdRng) {
     for _ in 0..40 {
         let i = if n == 0 { rng.gen_range(0..3) } else { rng.gen_range(0..n + 2) };
         chk!("QVector", inp.clone(), format!("get({})", i), qv.get(i), vals.get(i).map(|&v| (v & 3) as u8));
+        if i < n { chk!("QVector", inp.clone(), format!("get_unchecked({})", i), unsafe { qv.get_unchecked(i) }, (vals[i] & 3) as u8); }
     }
     chk!("QVector", inp.clone(), "iter().collect()".to_string(), qv.iter().collect::<Vec<u8>>(), vals.iter().map(|&v| (v & 3) as u8).collect::<Vec<u8>>());
     let mut it = qv.into_iter();
@@ -184,10 +189,12 @@ fn bitvector_test(rng: &mut StdRng) {
         for _ in 0..6 {
             let i = rng.gen_range(0..n + 2);
             chk!("BitVectorMut", hist.clone(), format!("get({})", i), bv.get(i), model.get(i).copied());
+            if i < n { chk!("BitVectorMut", hist.clone(), format!("get_unchecked({})", i), unsafe { bv.get_unchecked(i) }, model[i]); }
             let len = rng.gen_range(1..=64usize);
             if i + len < n { // (the last window is a recorded known finding of BitVectorMut::get_bits)
                 let exp: u64 = (0..len).map(|t| (model[i + t] as u64) << t).sum();
                 chk!("BitVectorMut", hist.clone(), format!("get_bits({},{})", i, len), bv.get_bits(i, len), Some(exp));
+                chk!("BitVectorMut", hist.clone(), format!("get_bits_unchecked({},{})", i, len), unsafe { bv.get_bits_unchecked(i, len) }, exp);
             }
         }
         if n > 0 {
@@ -209,6 +216,7 @@ fn bitvector_test(rng: &mut StdRng) {
         let len = rng.gen_range(1..=64usize); let i = rng.gen_range(0..n + 2);
         let exp = if i + len <= n { Some((0..len).map(|t| (model[i + t] as u64) << t).sum::<u64>()) } else { None };
         chk!("BitVector", hist.clone(), format!("get_bits({},{})", i, len), imm.get_bits(i, len), exp);
+        if let Some(e) = exp { chk!("BitVector", hist.clone(), format!("get_bits_unchecked({},{})", i, len), unsafe { imm.get_bits_unchecked(i, len) }, e); }
     }
     let mut it = imm.into_iter();
     for _ in 0..n { it.next(); }
@@ -246,6 +254,11 @@ macro_rules! rsq_test {
                 let k = match rng.gen_range(0..5) { 0 => tot, 1 => usize::MAX, 2 => tot.saturating_sub(1), 3 => (rng.gen_range(0..=tot / 8192 + 1) * 8192).saturating_sub(rng.gen_range(0..2)), _ => rng.gen_range(0..=tot) };
                 let exp = if s < 4 && k < tot { Some(pref.partition_point(|p| p[s as usize] <= k) - 1) } else { None };
                 chk!($label, inp.clone(), format!("select({}, {})", s, k), r.select(s, k), exp);
+                if let Some(p) = exp { chk!($label, inp.clone(), format!("select_unchecked({}, {})", s, k), unsafe { r.select_unchecked(s, k) }, p); }
+                if s < 4 && i <= n { chk!($label, inp.clone(), format!("rank_unchecked({}, {})", s, i), unsafe { r.rank_unchecked(s, i) }, pref[i][s as usize]); }
+                if i < n { chk!($label, inp.clone(), format!("get_unchecked({})", i), unsafe { r.get_unchecked(i) }, q[i]); }
+                if s < 4 { chk!($label, inp.clone(), format!("occs_unchecked({})", s), unsafe { r.occs_unchecked(s) }, pref[n][s as usize]);
+                           chk!($label, inp.clone(), format!("occs_smaller_unchecked({})", s), unsafe { r.occs_smaller_unchecked(s) }, (0..s as usize).map(|t| pref[n][t]).sum::<usize>()); }
             }
         }
     };
@@ -289,6 +302,11 @@ macro_rules! rsbin_test {
                 let k0 = match rng.gen_range(0..4) { 0 => zeros, 1 => usize::MAX, 2 => zeros.saturating_sub(1), _ => rng.gen_range(0..=zeros) };
                 let exp0 = if k0 < zeros { Some((0..=n).collect::<Vec<_>>().partition_point(|&p| p - pref[p] <= k0) - 1) } else { None };
                 chk!($label, inp.clone(), format!("select0({})", k0), r.select0(k0), exp0);
+                if let Some(p) = exp { chk!($label, inp.clone(), format!("select1_unchecked({})", k), unsafe { r.select1_unchecked(k) }, p); }
+                if let Some(p) = exp0 { chk!($label, inp.clone(), format!("select0_unchecked({})", k0), unsafe { r.select0_unchecked(k0) }, p); }
+                if n > 0 && i <= n { chk!($label, inp.clone(), format!("rank1_unchecked({})", i), unsafe { r.rank1_unchecked(i) }, pref[i]);
+                                     chk!($label, inp.clone(), format!("rank0_unchecked({})", i), unsafe { r.rank0_unchecked(i) }, i - pref[i]); }
+                if i < n { chk!($label, inp.clone(), format!("get_unchecked({})", i), unsafe { r.get_unchecked(i) }, b[i]); }
             }
         }
     };
@@ -322,6 +340,11 @@ fn darray_test(rng: &mut StdRng) {
         chk!("DArray<true>", inp.clone(), format!("select1({})", k), da.select1(k), pos.get(k).copied());
         let k0 = match rng.gen_range(0..4) { 0 => zeros.len(), 1 => usize::MAX, _ => rng.gen_range(0..=zeros.len()) };
         chk!("DArray<true>", inp.clone(), format!("select0({})", k0), da.select0(k0), zeros.get(k0).copied());
+        if k < pos.len() { chk!("DArray<true>", inp.clone(), format!("select1_unchecked({})", k), unsafe { da.select1_unchecked(k) }, pos[k]); }
+        if k0 < zeros.len() { chk!("DArray<true>", inp.clone(), format!("select0_unchecked({})", k0), unsafe { da.select0_unchecked(k0) }, zeros[k0]); }
+        let gi = rng.gen_range(0..n + 2);
+        chk!("DArray<true>", inp.clone(), format!("get({})", gi), da.get(gi), if gi < n { Some(pos.binary_search(&gi).is_ok()) } else { None });
+        if gi < n { chk!("DArray<true>", inp.clone(), format!("get_unchecked({})", gi), unsafe { da.get_unchecked(gi) }, pos.binary_search(&gi).is_ok()); }
     }
 }
 
